@@ -451,8 +451,32 @@ def collect_inputs_for_node(
     """
     inputs = {}
     for param in node.inputs:
+        if _nested_run_resolves_default(param, node, graph, state, provided_values):
+            continue
         inputs[param] = _resolve_input(param, node, graph, state, provided_values)
     return inputs
+
+
+def _nested_run_resolves_default(
+    param: str,
+    node: HyperNode,
+    graph: Graph,
+    state: GraphState,
+    provided_values: dict[str, Any],
+) -> bool:
+    """True when a GraphNode input falls back to an inner signature default.
+
+    The nested run resolves that default itself, with a fresh copy per run, so
+    the items of a mapped GraphNode never share one copy of a mutable default.
+    Parameters that are mapped over are still passed (the map needs the value).
+    """
+    if node.nested_graph is None:
+        return False
+    map_config = getattr(node, "map_config", None)
+    if map_config and param in map_config[0]:
+        return False
+    source, _ = get_value_source(param, node, graph, state, provided_values)
+    return source == ValueSource.DEFAULT
 
 
 def _resolve_input(
